@@ -19,9 +19,14 @@ import (
 // (backend Read/Write, builder) parks its goroutine; exactly one goroutine is resumed at a time and the scheduler then
 // waits until every managed goroutine is parked again, blocked in waitForValue, or gone.
 
-type tokErr struct{ n int }
+type tokErr struct {
+	n      int
+	ctxErr bool // also reports itself as context.Canceled (a builder giving up because its context was cancelled)
+}
 
 func (e tokErr) Error() string { return fmt.Sprintf("injected-error-%d", e.n) }
+
+func (e tokErr) Is(target error) bool { return e.ctxErr && target == context.Canceled }
 
 func errTok(err error) int {
 	var te tokErr
@@ -54,6 +59,7 @@ type directive struct {
 	bOK    bool
 	bVal   int
 	bErr   int
+	bCtx   bool // the builder error is a context cancellation
 	bTTLs  []int64 // builder: WithTTL(ctx, ttl, true) calls
 	cancel func()  // builder: cancel the caller's context before returning (C04/C06)
 }
@@ -177,7 +183,7 @@ func (f *faultyRW) doRead(ctx context.Context, key []byte) (int, error) {
 	if d.fault != 0 {
 		co.t1 = now()
 		co.outcome = fmt.Sprintf("err %d", d.fault)
-		return 0, tokErr{d.fault}
+		return 0, tokErr{n: d.fault}
 	}
 	v, err := f.inner.Read(ctx, key)
 	co.t1 = now()
@@ -204,7 +210,7 @@ func (f *faultyRW) doWrite(ctx context.Context, key []byte, v int) error {
 	if d.fault != 0 {
 		co.t1 = now()
 		co.outcome = fmt.Sprintf("err %d", d.fault)
-		return tokErr{d.fault}
+		return tokErr{n: d.fault}
 	}
 	err := f.inner.Write(ctx, key, v)
 	co.t1 = now()
@@ -276,7 +282,7 @@ func (x feAny) ErrorsWalk() []EntryObs {
 	return res
 }
 func (x feAny) SeedError(key []byte, e int) {
-	_ = x.f.Errors.Write(context.Background(), key, tokErr{e})
+	_ = x.f.Errors.Write(context.Background(), key, tokErr{n: e})
 }
 
 type feOf struct{ f *cache.FailoverOf[int] }
@@ -298,5 +304,5 @@ func (x feOf) ErrorsWalk() []EntryObs {
 	return res
 }
 func (x feOf) SeedError(key []byte, e int) {
-	_ = x.f.Errors.Write(context.Background(), key, tokErr{e})
+	_ = x.f.Errors.Write(context.Background(), key, tokErr{n: e})
 }
